@@ -27,6 +27,8 @@ pub struct GenCfg {
     pub sibling_shape: usize,
     /// probability (in 1/16) of starting with the map_ref re-observation shape
     pub mapref_shape: usize,
+    /// probability (in 1/16) of starting with the kept-scope-node shape
+    pub kept_shape: usize,
     /// weight multipliers
     pub w_create: usize,
     pub w_write: usize,
@@ -56,6 +58,7 @@ impl GenCfg {
             until_stable: true,
             sibling_shape: 3,
             mapref_shape: 2,
+            kept_shape: 1,
             w_create: 10,
             w_write: 10,
             w_observe: 6,
@@ -468,6 +471,59 @@ impl Gen {
         }
     }
 
+    /// a node built by a bind closure is adopted and observed on its own; the bind goes
+    /// unobserved, its input grows taller (or changes), and then the bind comes back in a round in
+    /// which the kept node's own input changes too
+    fn shape_kept_scope_node(&mut self, w: &World, rng: &mut Rng) {
+        let base = w.model.nodes.len();
+        let vbase = w.model.vars.len();
+        let obase = w.observers.len();
+        let dbase = w.sh.registry.borrow().len();
+        self.plan.push_back(Action::NewVar(Val::I(0))); // sel: node base
+        self.plan.push_back(Action::NewVar(Val::I(rng.range(0, 4)))); // b: node base+1
+        self.plan.push_back(Action::NewVar(Val::I(rng.range(0, 4)))); // k: node base+2
+        let (sel, b, k) = (base, base + 1, base + 2);
+        self.plan.push_back(Action::Create(Kind::Map(F1::Ident, b))); // shallow: base+3
+        let shallow = base + 3;
+        let mut deep = shallow;
+        let mut next = base + 4;
+        let len = 2 + rng.below(5);
+        let mut prev = b;
+        for i in 0..len {
+            self.plan.push_back(Action::Create(Kind::Map(if i == 0 { F1::Lin(1, 2) } else { F1::Ident }, prev)));
+            prev = next;
+            deep = next;
+            next += 1;
+        }
+        // the bind's input: switches between a shallow and a deep node
+        self.plan.push_back(Action::Create(Kind::Bind(sel, vec![Rc::new(Tm::Ref(shallow)), Rc::new(Tm::Ref(deep))])));
+        let input = next;
+        next += 1;
+        self.plan.push_back(Action::Create(Kind::Bind(
+            input,
+            vec![Rc::new(Tm::MapCap(F2::Add, Rc::new(Tm::Ref(k)), 0)), Rc::new(Tm::MapCap(F2::MulAdd(2), Rc::new(Tm::Ref(k)), 0))],
+        )));
+        let bind = next;
+        self.plan.push_back(Action::Observe(input)); // obase
+        self.plan.push_back(Action::Observe(bind)); // obase+1
+        self.plan.push_back(Action::Stabilise);
+        self.plan.push_back(Action::Adopt(dbase)); // node bind+1
+        self.plan.push_back(Action::Observe(bind + 1)); // obase+2
+        self.plan.push_back(Action::Stabilise);
+        self.plan.push_back(Action::DropObs(obase + 1));
+        self.plan.push_back(Action::Stabilise);
+        self.plan.push_back(Action::Write(vbase, WriteOp::Set(1)));
+        if rng.chance(1, 2) {
+            self.plan.push_back(Action::Write(vbase + 1, WriteOp::UpdateAdd(1)));
+        }
+        self.plan.push_back(Action::Stabilise);
+        self.plan.push_back(Action::Observe(bind));
+        self.plan.push_back(Action::Write(vbase + 2, WriteOp::UpdateAdd(1)));
+        self.plan.push_back(Action::Stabilise);
+        self.plan.push_back(Action::Write(vbase, WriteOp::Set(0)));
+        self.plan.push_back(Action::Stabilise);
+    }
+
     fn shape_mapref(&mut self, w: &World, rng: &mut Rng) {
         let base = w.model.nodes.len();
         let vbase = w.model.vars.len();
@@ -520,6 +576,10 @@ impl Gen {
             }
             if rng.below(16) < self.cfg.mapref_shape {
                 self.shape_mapref(w, rng);
+                return self.plan.pop_front();
+            }
+            if rng.below(16) < self.cfg.kept_shape {
+                self.shape_kept_scope_node(w, rng);
                 return self.plan.pop_front();
             }
         }
